@@ -102,9 +102,13 @@ func (a *Allocation) AddPermission(perms *Permission) {
 		return
 	}
 
+	// Arm the lifetime timer before the permission becomes visible: Close and
+	// the allocation's expiry stop the timers of every listed permission, also
+	// while the OnPermissionCreated callback below is still running.
 	perms.allocation = a
 	a.permissionsLock.Lock()
 	a.permissions[fingerprint] = perms
+	perms.start(perms.timeout)
 	a.permissionsLock.Unlock()
 
 	if a.eventHandler.OnPermissionCreated != nil {
@@ -114,8 +118,6 @@ func (a *Allocation) AddPermission(perms *Permission) {
 				a.RelayAddr, u.IP)
 		}
 	}
-
-	perms.start(perms.timeout)
 }
 
 // RemovePermission removes the net.Addr's fingerprint from the allocation's permissions.
